@@ -168,6 +168,22 @@ theorem C15_original_counterexample :
     medianOriginal [-3, -3] = some (-2) ∧ ¬ (∃ b ∈ [(-3 : Int), -3], (-2 : Int) ≤ b) :=
   medianOriginal_counterexample
 
+/-- OBSERVATION (recorded in DESIGN §10; none of the 18 properties speaks about it): the check
+    that admits a vote extension (`verify_vote_extension`: every price at most 33 bytes) is
+    weaker than the decoder that FinalizeBlock later applies to the same bytes (`Price::try_from`:
+    exactly 16 bytes) — lengths 0–15 and 17–33 are admitted but not decodable. The `pricelen`
+    lines of the vote-extension harness tie both functions to the code. -/
+theorem C15_observation_admitted_price_not_decodable :
+    ∃ n, Quorum.verifyAcceptsPriceLen n = true ∧ Quorum.priceDecodes n = false := ⟨17, by decide⟩
+
+/-- …and the two agree exactly on 16-byte prices and on anything longer than 33 bytes. -/
+theorem C15_price_length_consistent_iff (n : Nat) :
+    (Quorum.verifyAcceptsPriceLen n = true ∧ Quorum.priceDecodes n = false) ↔ (n ≤ 33 ∧ n ≠ 16) := by
+  unfold Quorum.verifyAcceptsPriceLen Quorum.priceDecodes Quorum.MAX_PRICE_BYTES
+  constructor
+  · rintro ⟨h1, h2⟩; exact ⟨by simpa using h1, by simpa using h2⟩
+  · rintro ⟨h1, h2⟩; exact ⟨by simpa using h1, by simpa using h2⟩
+
 end C15
 
 end Astria
